@@ -248,6 +248,28 @@ class Handles:
                         adv = True
         n += 1
         rep.ob(rule, b.id, "position advances by n", adv, "" if adv else "the cursor is not advanced by exactly the number of bytes copied", b.span)
+        # ... after the bytes were taken: value origins do not distinguish `self.position` read before the update from the same
+        # expression read after it, so the order is a rule of its own — no access to the content is reachable from the update
+        cfg = tr.cfg
+        late = []
+        for blk in b.blocks:
+            if blk.cleanup:
+                continue
+            wi = [i for i, st in enumerate(blk.stmts) if st.kind == "assign" and not st.lhs.is_local() and self.pos_field in st.lhs.fields()]
+            if not wi:
+                continue
+            for blk2 in b.calls():
+                sh2 = short(blk2.term.callee() or "")
+                if sh2 not in ("Index::index", "slice::copy_from_slice", "Vec::as_slice", "slice::get", "Deref::deref"):
+                    continue
+                if not any(x[0] == "field" and x[2] == self.content_field for a2 in blk2.term.args for x in walk(norm(tr.operand(a2)))):
+                    continue
+                if blk2.idx == blk.idx or cfg.strictly_reaches(blk.idx, blk2.idx):
+                    late.append(blk2.term.line)
+        n += 1
+        rep.ob(rule, b.id, "position is advanced only after the bytes were copied", not late, "" if not late else
+               "the content is still accessed after the cursor was moved: that access uses the new position (bytes are returned "
+               "out of order, the last byte indexes past the end)", late[0] if late else b.span)
         # returns n
         retn = False
         for ct, _, bb in self.inter.ret_cases(b):
@@ -454,6 +476,7 @@ class Handles:
                                                  x[2][1][0] == "field" and x[2][1][2] == dest_field for x in walk(v))
                     # and the mapped closure reads the same-named field
                     same = False
+                    exact = True
                     if v is not None:
                         for x in walk(v):
                             if x[0] == "closure":
@@ -463,10 +486,22 @@ class Handles:
                                         c = norm(ct)
                                         if any(y[0] == "field" and y[2] == fld for y in walk(c)):
                                             same = True
+                                            # ... the field itself (at most cloned / wrapped in Some), not something computed from it
+                                            c2 = c
+                                            while (c2[0] == "call" and c2[1] in ("Clone::clone", "Option::clone", "Deref::deref", "Option::cloned",
+                                                                                  "Option::copied", "Into::into", "From::from") and c2[2]) or \
+                                                    (c2[0] == "agg" and c2[2] == "Some" and len(c2[3]) == 1):
+                                                c2 = c2[2][0] if c2[0] == "call" else c2[3][0][1]
+                                            if not (c2[0] == "field" and c2[2] == fld):
+                                                exact = False
                     n += 1
                     rep.ob(rule_time, target.id, "flush keeps `%s` of the previous entry" % fld, prev and same, "" if (prev and same) else
                            "`%s` of the published entry is %s: it is not taken from the entry found under the destination at flush "
                            "time (a timestamp set in between is lost / content writes disturb it)" % (fld, fmt(v)[:70] if v else "?"), t.line)
+                    n += 1
+                    rep.ob(rule_time, target.id, "flush carries `%s` over unchanged" % fld, exact or not same, "" if (exact or not same) else
+                           "`%s` of the published entry is computed from the previous value (clamped, compared, replaced for some values): "
+                           "writing to a file changes a time stamp that was set explicitly" % fld, t.line)
         # every non-error return of the publication passes the insert
         if via is not None:
             tro = get_tracer(facts, outer)
